@@ -51,9 +51,9 @@ func catalogue() map[string][][]string {
 		"JGET":           {w("JGET k1 b"), w("JGET k1 b x"), w("JGET k1 b x RAW"), w("JGET k1 c properties.n"), w("JGET k1 b nopath"), w("JGET k1 nope"), w("JGET nokey a"), w("JGET k1"), w("JGET k1 b x BOGUS")},
 		"JSET":           {w("JSET k1 b y 2"), w("JSET k1 b y str"), w("JSET k1 b y 7 STR"), w("JSET k1 b y {\"q\":1} RAW"), w("JSET k1 c properties.p 5"), w("JSET k1 newid v 1"), w("JSET k1 b y"), w("JSET k1 b y 1 BOGUS")},
 		"JDEL":           {w("JDEL k1 b x"), w("JDEL k1 c properties.n"), w("JDEL k1 b nopath"), w("JDEL k1 nope x"), w("JDEL nokey a x"), w("JDEL k1 b")},
-		"SCAN":           {{"SCAN", "k1", "WHEREEVALSHA", "@F", "0", "IDS"}, {"SCAN", "k1", "WHEREEVALSHA", "0000000000000000000000000000000000000000", "0"}, w("SCAN k1 NOFIELDS LIMIT 2"), w("SCAN k1 HASHES 5"), w("SCAN k1 WHEREIN f 2 1 2 IDS"), w("SCAN k1"), w("SCAN k1 LIMIT 1"), w("SCAN k1 CURSOR 1 LIMIT 1 IDS"), w("SCAN k1 MATCH a* IDS"), w("SCAN k1 WHERE f 0 2 COUNT"), w("SCAN k1 DESC POINTS"), w("SCAN k1 BOUNDS"), w("SCAN k1 HASHES 5"), w("SCAN k1 NOFIELDS"), w("SCAN nokey"), w("SCAN"), w("SCAN k1 LIMIT x"), w("SCAN k1 BOGUS")},
-		"SEARCH":         {w("SEARCH k1 MATCH * WHERE f 0 2"), w("SEARCH k1 DESC LIMIT 1 CURSOR 1"), w("SEARCH k1 ASC IDS WHEREIN f 1 1"), w("SEARCH k1 NOFIELDS"), w("SEARCH k2"), w("SEARCH k1"), w("SEARCH k1 IDS"), w("SEARCH k1 COUNT"), w("SEARCH k1 MATCH h* DESC"), w("SEARCH k1 LIMIT 1"), w("SEARCH nokey"), w("SEARCH"), w("SEARCH k1 BOGUS")},
-		"NEARBY":         {w("NEARBY k1 IDS GEO"), w("NEARBY k1 IDS BOUNDS 0 0 1 1"), w("NEARBY k1 IDS CIRCLE 1 2 100"), w("NEARBY k1 IDS ROAM k2 * 100"), w("NEARBY k1 IDS TILE 0 0 0"), w("NEARBY k1 POINT 1 2"), w("NEARBY k1 POINT 1 2 100000"), w("NEARBY k1 LIMIT 1 IDS POINT 1 2"), w("NEARBY k1 DISTANCE POINT 1 2 500000"), w("NEARBY k1 DISTANCE IDS POINT 1 2"), w("NEARBY k1 DISTANCE POINT 1 2"), w("NEARBY k1 DISTANCE POINTS POINT 1 2 900000"), w("NEARBY k1 COUNT POINT 1 2"), w("NEARBY nokey POINT 1 2"), w("NEARBY k1"), w("NEARBY k1 POINT x y"), w("NEARBY k1 BOUNDS 1 2 3 4")},
+		"SCAN":           {w("SCAN k1 BUFFER 10"), w("SCAN k1 SPARSE 2"), w("SCAN k1 CLIP"), w("SCAN k1 DISTANCE"), {"SCAN", "k1", "WHEREEVALSHA", "@F", "0", "IDS"}, {"SCAN", "k1", "WHEREEVALSHA", "0000000000000000000000000000000000000000", "0"}, w("SCAN k1 NOFIELDS LIMIT 2"), w("SCAN k1 HASHES 5"), w("SCAN k1 WHEREIN f 2 1 2 IDS"), w("SCAN k1"), w("SCAN k1 LIMIT 1"), w("SCAN k1 CURSOR 1 LIMIT 1 IDS"), w("SCAN k1 MATCH a* IDS"), w("SCAN k1 WHERE f 0 2 COUNT"), w("SCAN k1 DESC POINTS"), w("SCAN k1 BOUNDS"), w("SCAN k1 HASHES 5"), w("SCAN k1 NOFIELDS"), w("SCAN nokey"), w("SCAN"), w("SCAN k1 LIMIT x"), w("SCAN k1 BOGUS")},
+		"SEARCH":         {w("SEARCH k1 BUFFER 10"), w("SEARCH k1 SPARSE 2"), w("SEARCH k1 DISTANCE"), w("SEARCH k1 FENCE"), w("SEARCH k1 MATCH * WHERE f 0 2"), w("SEARCH k1 DESC LIMIT 1 CURSOR 1"), w("SEARCH k1 ASC IDS WHEREIN f 1 1"), w("SEARCH k1 NOFIELDS"), w("SEARCH k2"), w("SEARCH k1"), w("SEARCH k1 IDS"), w("SEARCH k1 COUNT"), w("SEARCH k1 MATCH h* DESC"), w("SEARCH k1 LIMIT 1"), w("SEARCH nokey"), w("SEARCH"), w("SEARCH k1 BOGUS")},
+		"NEARBY":         {w("NEARBY k1 BUFFER 10 IDS POINT 1 2 1000"), w("NEARBY k1 BUFFER 10 POINT 1 2"), w("NEARBY k1 CLIPBY BOUNDS 0 0 5 5 POINT 1 2 100000"), w("NEARBY k1 SPARSE 2 POINT 1 2 100000"), w("NEARBY k1 CLIP POINT 1 2"), w("NEARBY k1 IDS GEO"), w("NEARBY k1 IDS BOUNDS 0 0 1 1"), w("NEARBY k1 IDS CIRCLE 1 2 100"), w("NEARBY k1 IDS ROAM k2 * 100"), w("NEARBY k1 IDS TILE 0 0 0"), w("NEARBY k1 POINT 1 2"), w("NEARBY k1 POINT 1 2 100000"), w("NEARBY k1 LIMIT 1 IDS POINT 1 2"), w("NEARBY k1 DISTANCE POINT 1 2 500000"), w("NEARBY k1 DISTANCE IDS POINT 1 2"), w("NEARBY k1 DISTANCE POINT 1 2"), w("NEARBY k1 DISTANCE POINTS POINT 1 2 900000"), w("NEARBY k1 COUNT POINT 1 2"), w("NEARBY nokey POINT 1 2"), w("NEARBY k1"), w("NEARBY k1 POINT x y"), w("NEARBY k1 BOUNDS 1 2 3 4")},
 		"WITHIN":         {w("WITHIN k1 IDS GEO"), w("WITHIN k1 GEO 1 2"), w("WITHIN k1 IDS POINT 1 2"), w("WITHIN k1 IDS ROAM k2 * 100"), w("WITHIN k1 BUFFER 1000 BOUNDS 1 2 3 4"), w("WITHIN k1 BUFFER 0 IDS BOUNDS 1 2 3 4"), w("WITHIN k1 SPARSE 2 BOUNDS 0 0 10 10"), w("WITHIN k1 IDS TILE 0 0 0"), w("WITHIN k1 COUNT QUADKEY 1"), w("WITHIN k1 IDS HASH s0"), w("WITHIN k1 IDS SECTOR 1 2 100000 0 90"), w("WITHIN k1 MVT 0 0 0"), w("WITHIN k1 BUFFER x BOUNDS 1 2 3 4"), w("WITHIN k1 SPARSE 9 BOUNDS 0 0 10 10"), w("WITHIN k1 BOUNDS 0 0 10 10"), w("WITHIN k1 IDS CIRCLE 1 2 100000"), w("WITHIN k1 COUNT BOUNDS 0 0 10 10"), {"WITHIN", "k1", "OBJECT", gPoly}, w("WITHIN k1 GET k2 a"), w("WITHIN k1 TILE 0 0 1"), w("WITHIN k1 QUADKEY 03"), w("WITHIN k1 HASH 9tb"), w("WITHIN k1 SECTOR 1 2 100000 0 90"), w("WITHIN nokey BOUNDS 0 0 1 1"), w("WITHIN k1"), w("WITHIN k1 BOUNDS 0 0"), w("WITHIN k1 GET nokey a")},
 		"INTERSECTS":     {w("INTERSECTS k1 IDS GEO"), w("INTERSECTS k1 MVT"), w("INTERSECTS k1 IDS POINT 1 2"), w("INTERSECTS k1 IDS ROAM k2 * 100"), w("INTERSECTS k1 CLIP BOUNDS 0 0 5 5"), {"INTERSECTS", "k1", "BUFFER", "500", "OBJECT", gLine}, w("INTERSECTS k1 SPARSE 1 IDS BOUNDS 0 0 10 10"), w("INTERSECTS k1 MVT 0 0 0"), w("INTERSECTS k1 CLIP IDS BOUNDS 0 0 5 5"), w("INTERSECTS k1 IDS TILE 1 1 1"), w("INTERSECTS k1 BOUNDS 0 0 10 10"), w("INTERSECTS k1 IDS CIRCLE 1 2 100000"), w("INTERSECTS k1 CLIPBY BOUNDS 0 0 5 5 BOUNDS 0 0 10 10"), {"INTERSECTS", "k1", "OBJECT", gLine}, w("INTERSECTS k1 GET k2 a"), w("INTERSECTS nokey BOUNDS 0 0 1 1"), w("INTERSECTS k1"), w("INTERSECTS k1 CIRCLE 1 2")},
 		"TEST":           {w("TEST BOUNDS 0 0 5 5 INTERSECTS CLIP BOUNDS 1 1 9 9"), w("TEST SECTOR 1 2 1000 0 90 WITHIN CIRCLE 1 2 5000"), w("TEST TILE 0 0 0 INTERSECTS QUADKEY 0"), w("TEST HASH s0 WITHIN HASH s"), {"TEST", "OBJECT", gLine, "INTERSECTS", "GET", "k1", "c"}, w("TEST GET k1 b WITHIN BOUNDS 0 0 10 10"), w("TEST POINT 1 2 WITHIN CLIP BOUNDS 0 0 5 5"), w("TEST CIRCLE 1 2 0 INTERSECTS POINT 1 2"), w("TEST POINT 91 181 WITHIN BOUNDS -90 -180 90 180"), {"TEST", "POINT", "1", "2", "WITHIN", "BOUNDS", "0", "0", "10", "10"}, {"TEST", "GET", "k1", "a", "INTERSECTS", "OBJECT", gPoly}, w("TEST POINT 1 2 INTERSECTS CIRCLE 1 2 100"), w("TEST GET nokey a WITHIN BOUNDS 0 0 1 1"), w("TEST POINT 1 2"), w("TEST")},
